@@ -65,6 +65,7 @@ def judge_direct(case, rec):
                                           or sv["vars"][measure["var"]]["type"] == "numarr")
     for part, tkey in zip(cube.partitions, tkeys):
         orc = Oracle(sv, q, table_key=tkey)
+        lib.warm(part, case.get("warmup"))
         rspecs, cspecs = _specs(part, orc, case)
         wc = np.asarray(part.counts, dtype=float)
         uc = np.asarray(part.unweighted_counts, dtype=float)
@@ -160,6 +161,7 @@ def judge_direct_strand(case, rec):
     sv, q = case["survey"], case["query"]
     resp = zz9enc.encode(sv, q)
     part = lib.cube(resp, case["transforms"]).partitions[0]
+    lib.warm(part, case.get("warmup"))
     orc = Oracle(sv, q)
     rec.event("shape=" + "x".join(case["shape"]))
     rspecs = lib.display_specs(part.row_order(), part.row_labels, orc.rows,
@@ -362,6 +364,8 @@ def judge_merge(case, rec):
         tM["pairwise_indices"] = {"alpha": case["alpha"], "only_larger": False}
     A = lib.cube(zz9enc.encode(sv, q), tA, population=case["population"]).partitions[0]
     M = lib.cube(zz9enc.encode(sv2, q), tM, population=case["population"]).partitions[0]
+    lib.warm(A, case.get("warmup"))
+    lib.warm(M, case.get("warmup"))
     oA, oM = Oracle(sv, q), Oracle(sv2, q)
     rec.event("shape=" + "x".join(case["shape"]))
     rec.event("axis=%d" % which)
@@ -550,6 +554,7 @@ def judge_wave(case, rec):
     axis_name = ["rows_dimension", "columns_dimension"][which]
     part = lib.cube(zz9enc.encode(sv, q), {axis_name: {"insertions": [case["insertion"]]}}
                     ).partitions[0]
+    lib.warm(part, case.get("warmup"))
     orc = Oracle(sv, q)
     rec.event("shape=" + "x".join(case["shape"]))
     adds, subs = case["adds"], case["subs"]
@@ -641,6 +646,7 @@ def judge_weighted_valid_only(case, rec):
     tkeys = dims[0].keys if len(dims) == 3 else [None]
     for part, tkey in zip(cube.partitions, tkeys):
         orc = Oracle(sv, q, table_key=tkey)
+        lib.warm(part, case.get("warmup"))
         rspecs, cspecs = _specs(part, orc, case)
         wc = np.asarray(part.counts, dtype=float)
         for i, r_ in enumerate(rspecs):
